@@ -445,7 +445,7 @@ def code_paths(cells, mode, tok, report_unmapped):
     return out
 
 
-def compare(cells, modes_in_code, report_ok, report_bad, notes=None, summaries=None):
+def compare(cells, modes_in_code, report_ok, report_bad, notes=None, summaries=None, only_modes=None):
     global PURE_SUMM
     PURE_SUMM = summaries
     spec = load_rows()
@@ -453,6 +453,8 @@ def compare(cells, modes_in_code, report_ok, report_bad, notes=None, summaries=N
     unmapped = set()
     names_in_code = dc.names_in(cells)
     for mode in sorted(spec.ROWS):
+        if only_modes is not None and mode not in only_modes:
+            continue
         if mode not in modes_in_code:
             report_bad("mode:" + mode, "mode-missing", "insertion mode %s of the standard does not exist in the code" % mode)
             continue
